@@ -71,6 +71,40 @@ def gen_boundary(rng, c, extra):
     for k in keys: ops.append('G %s' % hx(k))
     return ops
 
+def gen_tombstone_rehash(rng, c, rounds):
+    """a rehash that is triggered by tombstones, not by live keys: the table reaches the high watermark while fewer than
+    LOW_WATERMARK percent of the buckets hold live keys, so the rehash keeps (or even could shrink) the capacity; the keys
+    share probe paths, so survivors sit BEHIND the deleted ones and are reachable afterwards only if the table is rebuilt"""
+    cap = c['init']; ops = []; live = []
+    fresh = 0
+    for r in range(rounds):
+        thr = (c['high'] * cap + 99) // 100
+        tgt = rng.randrange(cap)
+        keys = key_pool(rng, c, thr + 4, cap, tgt if rng.random() < 0.7 else None)
+        keys = [k for k in keys if k not in live]
+        # fill up to just below the watermark
+        room = max(0, thr - 1 - len(live)); batch = keys[:room]
+        for k in batch: ops.append('P %s %d' % (hx(k), rng.randint(1, 999))); live.append(k)
+        ops.append('S')
+        # delete most of them (the earlier ones of each probe path first), keep a few late survivors
+        keep = max(1, min(len(live) - 1, (c['low'] * cap) // 100 - rng.randint(1, 3)))
+        victims = live[:len(live) - keep] if rng.random() < 0.7 else rng.sample(live, len(live) - keep)
+        for d in victims: ops.append('D %s' % hx(d)); live.remove(d)
+        ops.append('S')
+        # new keys until the watermark is crossed: rehash with few live keys
+        for k in keys[room:room + 3]:
+            ops.append('P %s %d' % (hx(k), rng.randint(1, 999))); live.append(k); ops.append('S')
+        for k in live + victims[:6]: ops.append('G %s' % hx(k))
+        if rng.random() < 0.5:   # grow for the next round
+            extra = key_pool(rng, c, cap, cap * 2, None)
+            for k in extra:
+                if k not in live: ops.append('P %s %d' % (hx(k), 1)); live.append(k)
+            ops.append('S'); cap_guess = cap
+            while len(live) * 100 >= c['high'] * cap: cap *= 2
+    ops.append('S')
+    for k in live: ops.append('G %s' % hx(k))
+    return ops
+
 def gen_growth(rng, c, nkeys, del_frac):
     keys = [b'k%d' % i if rng.random() < 0.5 else bytes([rng.randrange(1, 256) for _ in range(rng.randint(1, 5))])
             for i in range(nkeys)]
@@ -271,6 +305,7 @@ def main():
     cases.append(('prefix', gen_prefix(rng, consts)))
     for i in range(nsmall): cases.append(('small%d' % i, gen_small(rng, consts, rng.randint(4, 40))))
     for i in range(nbound): cases.append(('boundary%d' % i, gen_boundary(rng, consts, rng.randint(-2, 8))))
+    for i in range(nbound): cases.append(('tombstone-rehash%d' % i, gen_tombstone_rehash(rng, consts, rng.randint(1, 3))))
     for i in range(ngrow): cases.append(('growth%d' % i, gen_growth(rng, consts, rng.choice([60, 200, 500, 900] if tier == 'quick' else [200, 900, 2500]), rng.choice([0.0, 0.2, 0.5]))))
     if tier != 'quick': cases.append(('bundled', bundled_history()))
 
